@@ -269,4 +269,51 @@ theorem markAddrs_grp_needed (fuel : Nat) : ∀ (l : List String) (st : St) (g :
       exact ⟨gb', hgb', gm.up gi _ gb' h1 hgb' rfl⟩
     · exact ih _ g gi hg (by rw [(hinv.idx g).2.2]; exact hgi)
 
+theorem GMark.get' {st st' : St} (h : GMark st st') {i : Nat} {gb' : BGrp} (hi : st'.bGrp[i]? = some gb') :
+    ∃ gb, st.bGrp[i]? = some gb ∧ gb'.g = gb.g ∧ gb'.newName = gb.newName ∧ gb'.onDev = gb.onDev := by
+  have := congrArg (fun l => l[i]?) h.bg
+  simp only [List.getElem?_map, hi, Option.map_some] at this
+  cases hx : st.bGrp[i]? with
+  | none => simp [hx] at this
+  | some gb =>
+    simp only [hx, Option.map_some, Option.some.injEq, Prod.mk.injEq] at this
+    exact ⟨gb, rfl, this.1, this.2.1, this.2.2⟩
+
+theorem GMark.bIdx {st st' : St} (h : GMark st st') (x : String) : st'.bGrpIdx x = st.bGrpIdx x := by
+  unfold St.bGrpIdx
+  have := congrArg (List.map (fun p : Grp × String × String => p.1.name)) h.bg
+  simp only [List.map_map, Function.comp_def] at this
+  rw [this]
+
+/-- A group a rule names in source or destination is `needed` after `markObjects`. -/
+theorem markObjects_grp_needed (fuel : Nat) : ∀ (rules : List Rule) (st : St) (r : Rule) (g : String) (gi : Nat),
+    r ∈ rules → (g ∈ r.src ∨ g ∈ r.dst) → st.bGrpIdx g = some gi →
+    ∃ gb, (markObjects (fuel + 1) st rules).bGrp[gi]? = some gb ∧ gb.needed = true := by
+  intro rules
+  induction rules with
+  | nil => intro st r g gi hr; cases hr
+  | cons r0 rs ih =>
+    intro st r g gi hr hg hgi
+    unfold markObjects at ih ⊢
+    simp only [List.foldl_cons]
+    have g1 := markAddrs_gmark (fuel + 1) st r0.src
+    have g2 := markAddrs_gmark (fuel + 1) (markAddrs (fuel + 1) st r0.src) r0.dst
+    have g3 := markSrvs_gmark (fuel + 1) (markAddrs (fuel + 1) (markAddrs (fuel + 1) st r0.src) r0.dst) r0.srv
+    have grest : GMark (markSrvs (fuel + 1) (markAddrs (fuel + 1) (markAddrs (fuel + 1) st r0.src) r0.dst) r0.srv)
+        (rs.foldl (fun st r => markSrvs (fuel + 1) (markAddrs (fuel + 1) (markAddrs (fuel + 1) st r.src) r.dst) r.srv)
+          (markSrvs (fuel + 1) (markAddrs (fuel + 1) (markAddrs (fuel + 1) st r0.src) r0.dst) r0.srv)) :=
+      markObjects_gmark (fuel + 1) rs _
+    rcases List.mem_cons.mp hr with rfl | hr
+    · rcases hg with hg | hg
+      · obtain ⟨gb, hgb, hn⟩ := markAddrs_grp_needed fuel _ st g gi hg hgi
+        have gm := (g2.trans g3).trans grest
+        obtain ⟨gb', hgb', _⟩ := gm.get hgb
+        exact ⟨gb', hgb', gm.up gi gb gb' hgb hgb' hn⟩
+      · obtain ⟨gb, hgb, hn⟩ := markAddrs_grp_needed fuel _ (markAddrs (fuel + 1) st r.src) g gi hg
+          (by rw [g1.bIdx]; exact hgi)
+        have gm := g3.trans grest
+        obtain ⟨gb', hgb', _⟩ := gm.get hgb
+        exact ⟨gb', hgb', gm.up gi gb gb' hgb hgb' hn⟩
+    · exact ih _ r g gi hr hg (by rw [((g1.trans g2).trans g3).bIdx]; exact hgi)
+
 end NA.PanOs
